@@ -777,6 +777,27 @@ func genFuzz(stream string, seed uint64, n int) []GenCase {
 		}
 		add(script, oddObject(r), "valid-program-odd-object")
 	}
+	// degenerate scripts: nothing at all, blanks, comments only, separators only, definitions only - Prepare and
+	// every kind of run give a value or an error, the same each time
+	for _, sc := range []string{"", " ", "\n", "\t\r\n", "// c", "// c\n", "// a\n// b\n", ";", ";;", "; ;\n;", "function f() { }", "function f() { } function g() { return 1; }", "function f(a) { return a; } // only a definition",
+		"{}", "{ }", "()", "return", "return;", "return ;", "local x;", "1", "1;", "\"s\"", "x", "x;"} {
+		c := Case{ID: fmt.Sprintf("%s-%d", stream, id), Script: sc, Opt: id%2 == 0, Tags: []string{"degenerate-script"}, Show: []string{"runbool", "spec", "tokens"},
+			Fns:  []HostFn{recFn()},
+			Runs: []Run{{Obj: stdObject(r), Polls: 5000}, {Obj: HV{Kind: "nil"}, Polls: 5000}, {Obj: stdObject(r), Polls: 0}}}
+		id++
+		out = append(out, GenCase{Case: c, Stream: stream, NonTrivial: true, Role: "api"})
+	}
+	// a host function may hand back nil in either of Go's two ways - the nil interface, or a nil pointer of an object
+	// type inside it: an error either way, through Execute and through Run, and the evaluator stays usable
+	for kind := 0; kind <= 3; kind++ {
+		for _, sc := range []string{"return hn();", "x = hn(); return 1;", "function f() { return hn(); } return f();", "if (hn()) { return 1; } return 2;", "return [1, hn()];", "hn(); return 3;", "return string(hn());"} {
+			c := Case{ID: fmt.Sprintf("%s-%d", stream, id), Script: sc, Opt: id%2 == 0, Tags: []string{"host-nil-value"}, Show: []string{"runbool", "spec"},
+				Fns:  []HostFn{recFn(), {Name: "hn", Kind: "nil", I: kind}},
+				Runs: []Run{{Obj: stdObject(r), Polls: 5000}, {Obj: stdObject(r), Polls: 5000}}}
+			id++
+			out = append(out, GenCase{Case: c, Stream: stream, NonTrivial: true, Role: "api"})
+		}
+	}
 	// a host function may panic with any value, not just a string: an error, an integer, a struct, a slice, a float
 	for kind := 0; kind <= 5; kind++ {
 		for _, sc := range []string{"return hp();", "x = hp(); return 1;", "function f() { return hp(); } return f();", "if (Flag) { return hp(); } return 2;", "foreach v in [1, 2] { hp(); } return 3;"} {
